@@ -290,6 +290,7 @@ A64OpItems(d) ==
     [] d.k = "l" -> <<Nm(d.al, "imm")>>
     [] d.k = "m" -> A64MemItems(d)
     [] d.k = "lb" -> LabelItems(d.lb)
+    [] d.k = "ml" -> <<Wd("[", "mem")>> \o LabelItems(d.lb) \o <<Wd("]", "mem")>>          \* pc-relative literal: [label]
     [] d.k = "vr" -> A64VirtItems(d)
     [] OTHER -> <<Bad("U:operand kind")>>
 
@@ -316,21 +317,23 @@ A64Mnemonics(o) == {o.mn} \cup (IF "leg" \in DOMAIN o /\ o.leg = "L" /\ o.mn \in
 DenoteA64(o) == IF IsOperandLeg(o) THEN A64OpsFrom(o.o, 1)
                 ELSE <<Ws(A64Mnemonics(o), "mnemonic", o.mn)>> \o A64CondSuffix(o.o) \o A64OpsFrom(o.o, 1)
 
-\* machine-code column: present exactly when FormatFlags::kMachineCode; every pair is the byte appended at that position, or ".."
-\* over ONE contiguous displacement field (1 or 4 bytes) of an instruction that references a label / relocated address
+\* machine-code column: present exactly when FormatFlags::kMachineCode; one pair per byte appended; every pair is the byte appended
+\* at that position, except that the displacement / address FIELD of a reference CodeHolder registered a fixup or a relocation for
+\* (o.fx = <<offset in the instruction, width>> of every such field, read from CodeHolder by the harness) may be masked ".." - the
+\* whole field or nothing of it.  Opcode, ModRM/SIB and IMMEDIATE bytes are never masked and always equal the buffer.  An AArch64
+\* word is never masked (the field of its fixup shares the word with the opcode bits).
 Dots(hx) == {j \in 1..Len(hx) : hx[j] = -1}
-RelocPossibleX86(o) == \E j \in 1..Len(o.ops) : o.ops[j].t \in {"l", "lb"} \/ (o.ops[j].t = "m" /\ (o.ops[j].bt = "lb" \/ (o.ops[j].bt = "" /\ o.ops[j].it = "" /\ o.m = 64 /\ o.ops[j].at # 1)))
-RelocPossibleA64(o) == \E j \in 1..Len(o.o) : o.o[j].k = "lb"
+FxOf(o) == IF "fx" \in DOMAIN o THEN o.fx ELSE <<>>
+FieldPos(f) == (f[1] + 1)..(f[1] + f[2])
 HexVerdict(o, a64) ==
   IF ~FMachineCode(o.fl) THEN (IF o.hx = <<>> THEN "ok" ELSE "machine-code column printed without FormatFlags::kMachineCode")
   ELSE IF Len(o.hx) # Len(o.b) THEN "machine-code column has another length than the bytes appended"
   ELSE IF \E j \in 1..Len(o.b) : o.hx[j] # o.b[j] /\ o.hx[j] # -1 THEN "machine-code column differs from the bytes appended"
-  ELSE LET D == Dots(o.hx) IN
+  ELSE LET D == Dots(o.hx) fx == FxOf(o) IN
     IF D = {} THEN "ok"
     ELSE IF a64 THEN "masked bytes in an AArch64 machine-code column"
-    ELSE IF ~RelocPossibleX86(o) THEN "masked bytes although nothing is relocated"
-    ELSE IF ~(Cardinality(D) \in {1, 4}) \/ (CHOOSE hi \in D : \A q \in D : q <= hi) - (CHOOSE lo \in D : \A q \in D : q >= lo) + 1 # Cardinality(D)
-         THEN "masked bytes are not one displacement field"
+    ELSE IF ~(D \subseteq UNION {FieldPos(fx[q]) : q \in 1..Len(fx)}) THEN "masked bytes outside the displacement field of a relocated reference"
+    ELSE IF \E q \in 1..Len(fx) : FieldPos(fx[q]) \cap D # {} /\ ~(FieldPos(fx[q]) \subseteq D) THEN "displacement field of a relocated reference masked in part"
     ELSE "ok"
 
 \* the logger prints the options the assembler ended up with ("given or emitted"): "rex" also when the REX prefix was emitted for the
